@@ -252,6 +252,14 @@ def r07e(model: Model, rr: RuleResult):
         rr.ok("_copy_cbdt: run splitting and min/max use the target's glyph ids only")
     else:
         rr.unknown("_copy_cbdt: glyph id look-ups not in the enumerated shape")
+    # re-sharding happens on every path: nothing returns before the run loop (a donor in the "same order" can still straddle a gap in the target)
+    outer = [st for st in cc.body if isinstance(st, ast.While)]
+    early = [st for st in walk_body(cc) if isinstance(st, ast.Return) and outer and st.lineno < outer[0].lineno]
+    if outer and not early:
+        rr.ok("_copy_cbdt: no return precedes the loop that cuts the runs")
+    elif early:
+        rr.bad(cc, early[0], "_copy_cbdt can return before re-sharding: the donor's strikes are kept as they are, although two glyphs that are neighbours in the donor can "
+               "have a non-bitmap glyph between them in the target (one strike would then span a gap)", construct="_copy_cbdt: return before the run loop")
     wl = [st for st in ast.walk(cc.node) if isinstance(st, ast.While) and "+ 1" in norm(st.test)]
     if wl and "len(new_order) > end" in norm(wl[0].test):
         rr.ok("_copy_cbdt: a run is extended while the next target gid is the previous + 1")
